@@ -513,8 +513,88 @@ def gen_pill_case(rng, P):
     g.procs[1] = prog
     return 'core', g.lines()
 
+def gen_registry_case(rng, P):
+    """the per-module source registry across state changes: sources of several kinds registered while IDLE / RUNNING / PAUSED, then
+    stop (from RUNNING and from PAUSED), restart, pause/resume; after each transition the counts are read and keys are re-registered / deregistered"""
+    g = _base(rng, P, 2)
+    prog = ['ctxreg 1', 'reg 0', 'reg 1']
+    def reg(m):
+        k = rng.choice(['fd', 'tmr', 'tmr', 'sgn', 'thresh'])
+        key = {'fd': g.fd_of(m), 'tmr': rng.choice(TMR_KEYS[:3]), 'sgn': rng.choice(SIGS[:2]), 'thresh': 2000000001}[k]
+        if k == 'sgn' and g.sig_owner.setdefault(key, m) != m: k, key = 'tmr', TMR_KEYS[3]
+        return 'srcreg %d %s %d 0 %d 0 %d' % (m, k, key, 1 if rng.random() < 0.15 else 0, rng.randint(1, 99)), (m, k, key)
+    regs = []
+    def some_regs(m, n):
+        out = []
+        for _ in range(n):
+            c, r = reg(m); out.append(c); regs.append(r)
+        return out
+    def probe(m):
+        out = ['srclen %d 8' % m, 'srclen %d %d' % (m, rng.choice([1, 2, 3, 7]))]
+        if regs and rng.random() < 0.7:
+            r = rng.choice([x for x in regs if x[0] == m] or regs)
+            out.append(rng.choice(['srcreg %d %s %d 0 0 0 5' % r, 'srcdereg %d %s %d' % r]))
+        return out
+    m = 1
+    if rng.random() < 0.4: prog += some_regs(m, rng.randint(1, 2))             # registered while IDLE
+    prog += ['start 0', 'start 1'] + some_regs(m, rng.randint(1, 3)) + probe(m)
+    for _ in range(rng.randint(2, 6)):
+        x = rng.random()
+        if x < 0.3: prog += ['pause %d' % m] + (some_regs(m, 1) if rng.random() < 0.5 else []) + probe(m) + [rng.choice(['stop %d' % m, 'resume %d' % m])] + probe(m)
+        elif x < 0.5: prog += ['stop %d' % m] + probe(m) + ['start %d' % m] + probe(m)
+        elif x < 0.7: prog += some_regs(m, 1) + probe(m)
+        elif x < 0.85 and regs: prog += ['srcdereg %d %s %d' % rng.choice(regs)] + probe(m)
+        else: prog += ['dispatch'] + probe(m)
+    prog += probe(0) + ['quit 1', 'dispatch', 'dispatch'] + probe(m) + ['live', 'dereg 0', 'dereg 1', 'ctxdereg', 'live']
+    g.procs[1] = prog
+    return 'core', g.lines()
+
+def gen_registry_or_subs_case(rng, P):
+    return (gen_subs_case if rng.random() < 0.5 else gen_registry_case)(rng, P)
+
+def gen_errno_case(rng, P):
+    """errno left behind by EVERY kind of user callback (event handlers, start / stop / eval hooks) while further events of the same
+    poll batch are still to be processed: poison pills (whose on_stop hook runs in the middle of a batch), several ready sources,
+    direct messages; nothing may be dropped and the loop may not end because of it"""
+    g = _base(rng, P, 3, hooks=True)
+    for m in g.mods: m.update(hstop=1, hstart=rng.randint(0, 1), heval=rng.randint(0, 1))
+    E = [2, 4, 11, 13, 22, 32]
+    cbs = []
+    for m in range(3):
+        for kind in ('stop', 'start', 'eval', 'evt'):
+            if kind in ('start', 'eval') and not g.mods[m]['h' + kind]: continue
+            specs = []
+            for _ in range(rng.randint(1, 4)):
+                body = ['errno %d' % rng.choice(E)] if rng.random() < 0.7 else []
+                if kind == 'evt' and rng.random() < 0.2: body.append(rng.choice(['pill %d %d' % (m, (m + 1) % 3), 'stop %d' % ((m + 1) % 3), 'pause %d' % ((m + 2) % 3)]))
+                specs.append('%d:1' % (g.newproc(body) if body else 0))
+            cbs.append('cb %d %s 0 %s' % (m, kind, ' '.join(specs)))
+    g.cbs = cbs
+    prog = ['ctxreg 1', 'reg 0', 'reg 1', 'reg 2', 'dispatch']
+    regs = []
+    for m in range(3):
+        for _ in range(rng.randint(1, 2)):
+            k = rng.choice(['fd', 'tmr'])
+            key = g.fd_of(m) if k == 'fd' else rng.choice(TMR_KEYS)
+            prog.append('srcreg %d %s %d 0 %d 0 %d' % (m, k, key, 1 if rng.random() < 0.3 else 0, rng.randint(1, 99)))
+            regs.append((m, k, key))
+    def fire(reg):
+        m, k, key = reg
+        return 'fdwrite %d' % key if k == 'fd' else 'fire %d %s %d' % (m, k, key)
+    for _ in range(rng.randint(2, 6)):
+        batch = []
+        if rng.random() < 0.6: batch.append('pill %d %d' % (rng.randrange(3), rng.randrange(3)))
+        batch += [fire(rng.choice(regs)) for _ in range(rng.randint(1, 3))]
+        if rng.random() < 0.5: batch.append('tell %d %d %d 0' % (rng.randrange(3), rng.randrange(3), g.newdata()))
+        rng.shuffle(batch)
+        prog += batch + ['dispatch'] + (['start %d' % rng.randrange(3)] if rng.random() < 0.5 else [])
+    prog += ['dispatch', 'quit 7', 'dispatch', 'dispatch'] + ['srclen %d 8' % m for m in range(3)] + ['live', 'dereg 0', 'dereg 1', 'dereg 2', 'ctxdereg', 'live']
+    g.procs[1] = prog
+    return 'core', g.lines()
+
 def gen_sources_or_subs_case(rng, P):
-    return (gen_subs_case if rng.random() < 0.35 else gen_sources_case)(rng, P)
+    x = rng.random()
+    return (gen_subs_case if x < 0.25 else gen_errno_case if x < 0.55 else gen_sources_case)(rng, P)
 
 def gen_mixed_case(rng, P):
     return rng.choice([gen_sources_case, gen_stash_case, gen_lifetime_case, gen_lifetime_case, gen_batch_case, gen_become_case, gen_burst_case])(rng, P)
